@@ -313,6 +313,15 @@ func ConstIntUnderA(fn *ssa.Function, v ssa.Value, a Assumption) (int64, bool) {
 			}
 		}
 	}
+	for _, cand := range []ssa.Value{v, Resolve(v)} {
+		if rf, ok := AsRowField(fn, cand, a.KeyVal); ok {
+			if cv, ok := ConstOfRowField(rf, a.KeyConst); ok && cv.Kind() == constant.Int {
+				if k, exact := constant.Int64Val(cv); exact {
+					return k, true
+				}
+			}
+		}
+	}
 	return 0, false
 }
 
